@@ -134,7 +134,7 @@ def run(ctx):
     if f:
         oks = ctx.find_aggregates(f, r"^core::result::Result$", "Ok")
         for blk, i, st in oks:
-            ctx.requires("C14.G.ident-key-single-plain-segment", f, blk, "Ok(ident)", [r"Eq\(len\(a1\.segments\), 1_usize\)=True", r"is_some\(a1\.leading_colon\)=False", r"PathArguments::is_empty\(.*\)=True"])
+            ctx.requires("C14.G.ident-key-single-plain-segment", f, blk, "Ok(ident)", [r"^len\(a1\.segments\)=1$", r"is_some\(a1\.leading_colon\)=False", r"PathArguments::is_empty\(.*\)=True"])
         ctx.ob("C14.G.ident-key-shape", f.key, "one Ok", len(oks) == 1, "%d" % len(oks))
     f = ctx.fn("<alloc::string::String as darling_core::from_meta::KeyFromPath>::from_path")
     if f:
